@@ -259,8 +259,36 @@ func Gen(pr Profile) func(t *rapid.T) Scenario {
 			ops = append(ops, recipe.FileOp{Op: "PackagePrefix", Args: []recipe.Text{recipe.Text(rapid.SampledFrom(prefixChoices).Draw(t, "pkgprefix2"))}})
 		}
 		_ = anonOnly
-		sc.File.Ops = ops
+		if pr.Cgo && rapid.IntRange(0, 3).Draw(t, "preamble") == 0 {
+			// a cgo preamble, whether or not "C" is referenced or anonymous-imported
+			ops = append(ops, recipe.FileOp{Op: "CgoPreamble", Args: []recipe.Text{recipe.Text(rapid.SampledFrom([]string{"#include <stdio.h>", "#include <a.h>\n#include <b.h>", "// #include <raw.h>"}).Draw(t, "preambletext"))}})
+		}
 		sc.File.Body = GenBody(t, sc.Paths, pr)
+		// paths that only occur inside pairs that render nothing may carry hints of every kind:
+		// none of them may produce an import
+		for _, n := range sc.File.Body {
+			recipe.Walk(n, func(x *recipe.Node) {
+				if x == nil || x.Kind != recipe.KDict {
+					return
+				}
+				for _, pair := range x.Pairs {
+					for _, side := range []*recipe.Node{pair.K, pair.V} {
+						if side != nil && len(side.Calls) == 1 && side.Calls[0].Fn == "Qual" && strings.HasPrefix(string(side.Calls[0].Str[0]), "hidden.example/") {
+							h := side.Calls[0].Str[0]
+							switch rapid.IntRange(0, 4).Draw(t, "hiddenhint") {
+							case 0:
+								ops = append(ops, recipe.FileOp{Op: "ImportAlias", Args: []recipe.Text{h, "."}})
+							case 1:
+								ops = append(ops, recipe.FileOp{Op: "ImportAlias", Args: []recipe.Text{h, "hid"}})
+							case 2:
+								ops = append(ops, recipe.FileOp{Op: "ImportName", Args: []recipe.Text{h, "hidden"}})
+							}
+						}
+					}
+				}
+			})
+		}
+		sc.File.Ops = ops
 		return sc
 	}
 }
